@@ -531,10 +531,10 @@ pub fn exec_par(w: &mut World, st: &Step) -> bool {
                             ret: h.ret,
                         }),
                         None => {
-                            let kf = if kf03(w, g) {
-                                "/read-racing-first-write-to-cluster"
-                            } else if kf04(w, g) {
+                            let kf = if kf04(w, g) {
                                 "/read-racing-discard-same-cluster"
+                            } else if kf03(w, g) {
+                                "/read-racing-first-write-to-cluster"
                             } else {
                                 kf
                             };
@@ -587,10 +587,10 @@ pub fn exec_par(w: &mut World, st: &Step) -> bool {
                 SubOp::Read(v) => !explained.contains(&v) && s.inv < fin_tick,
                 _ => false,
             });
-            let kf = if alien_read && kf03(w, g) {
-                "/read-racing-first-write-to-cluster"
-            } else if alien_read && kf04(w, g) {
+            let kf = if alien_read && kf04(w, g) {
                 "/read-racing-discard-same-cluster"
+            } else if alien_read && kf03(w, g) {
+                "/read-racing-first-write-to-cluster"
             } else {
                 kf
             };
